@@ -26,6 +26,9 @@ On ill-formed files only "nothing invented, nothing twice" is demanded [ingest-l
 Outside the statement's domain and therefore covered by the correspondence only: counter/flow events
 (ph C/s/f/t are passed through un-annotated, also when they come first), first pid < 0, distributedInfo.rank,
 the "already processed by acelyzer -> all events dropped" branch, a dangling B at end of file (silently dropped).
+Stream H stores a file under a path whose job hash (crc32(path) % 10000) equals that of the constant job
+"top_level_multifile"; before /repo 91f149a such a file was read under the TORCH dialect (rank -1); a relapse is
+reported under the classifier ingest-jobhash-collision.
 """
 from __future__ import annotations
 
@@ -66,10 +69,12 @@ TRUSTED = ["json.load / json.dump round-trip floats exactly (repr)",
 ASSUMPTIONS = ["FLEX dialect JSON files, scale 1.0 (as MultifileIngest constructs them); TORCH profiles, "
                "perfetto and api:// inputs are outside the model",
                "pid / tid values are JSON integers",
-               "per-file iterators share no state: the job hashes (crc32(path) % 10000) of the input files are pairwise "
-               "distinct and differ from that of the constant job 'top_level_multifile', so every file is read under "
-               "its own dialect (the harness re-chooses file names until this holds; stream H shows what happens "
-               "otherwise — known finding ingest-jobhash-collision)"]
+               "per-file iterators share no state: the job hashes (crc32(path) % 10000) of the input files of one run are "
+               "pairwise distinct, so every file is read under its own dialect (two colliding files of one run share one "
+               "GlobalIngestData slot, the later one wins; the harness re-chooses file names until the hashes differ). "
+               "A collision with the constant job 'top_level_multifile' that MultifileIngest registers with the TORCH "
+               "dialect is NOT assumed away: stream H forces it as a regression sentinel (it was a defect, fixed in "
+               "/repo 91f149a)"]
 NOT_YET_PROVED = []
 LEVEL_TEXT = ("Lean theorems over a model of MultifileIngest and the per-file JSON iterator, for any number of files "
               "of any length: the merged stream is a permutation of the per-file yield sequences (merge_perm) and "
@@ -499,9 +504,9 @@ def gen_bad(ctx: Ctx):
 
 
 def gen_collide(ctx: Ctx):
-    """stream H (oracle only): a well-formed FLEX file stored under a path whose job hash collides with
-    the top-level ingester's constant job name"""
-    for n in range(ctx.n(3, 12)):
+    """stream H (regression sentinel, fixed: 91f149a): a well-formed FLEX file stored under a path whose job
+    hash collides with the top-level ingester's constant job name must still get rank = first pid"""
+    for n in range(ctx.n(6, 24)):
         u = U()
         k = 1 + n % 2
         files = [mkfile([mk(u(), "X", ts=t, dur=1, pid=3 + i, name="a") for t in range(ctx.rng.randint(1, 3))])
@@ -567,7 +572,6 @@ def run(ctx: Ctx):
         ctx.count("well_formed_cases", int(all(expected_file(f) is not None for f in case["files"])))
         if case.get("collide"):
             ctx.count("jobhash_collision_forced", int(bool(r.get("collision_forced"))))
-            continue        # oracle only: the model assumes distinct job hashes (ASSUMPTIONS)
         cases.append((case, ln))
         reals.append(r)
     ctx.extra["exhaustive"] = False
